@@ -202,6 +202,10 @@ func runTxbuf(s *vsimcore.Sim, p vsimcore.Params) vsimcore.RunInfo {
 	var model0 tbModel
 	model0.Base = init
 
+	// with a slow apply function several requests can be waiting when the buffer's goroutine returns to
+	// its select: which one it takes is the simulator's choice (seeded select pre-pass), not the runtime's
+	s.AttachSelect()
+	defer vsimcore.Detach()
 	s.Bubble(func() {
 		ctx, cancel := context.WithCancel(context.Background())
 		gchan.SimYield = func(ctx context.Context, op, label string) {
